@@ -58,9 +58,11 @@ Print Assumptions C06_marks_outside_kept.
 
 (* FULL STATEMENT AIMED AT (not proved): for every script, the run of ex_main equals, command by command, the run of
    the reference line editor of ExSpec.v (texts, current line, printed output, identity-marks, registers).
-   Proved below: the per-command equalities for delete, append/insert/change and print, given the resolved
-   range.  Missing: put/read/filter/yank/mark/= equations, the lifting through ex_exec's parser to whole
-   scripts, and registers. *)
+   Proved below: the per-command equalities, given the resolved range [b,e), for delete (text, current line, register),
+   append/insert/change, print, put, read, yank (register), mark, and =.  s1 is the state after the address was
+   resolved (it differs from s only in the remembered search keyword and, after `;`, the current line).
+   Missing: the filter command's equation, `@`, and the lifting through ex_exec's parser to whole scripts (needs a
+   parsed-command datatype and ex_exec = fold over it). *)
 Theorem C06_refines_spec_partial : forall rvalid rfind,
   (forall loc arg s b e s1, ex_region rvalid rfind loc s = (false, b, e, s1) -> slen s <> 0 -> ex_zero loc b e = false ->
      let s' := fst (ec_delete rvalid rfind loc arg s) in (texts s', xrow s') = ref_delete (texts s) b e) /\
@@ -73,8 +75,31 @@ Theorem C06_refines_spec_partial : forall rvalid rfind,
   (forall loc cmd s b e s1, ex_region rvalid rfind loc s = (false, b, e, s1) -> (cmd <> [] \/ loc <> []) -> ex_zero loc b e = false ->
      let s' := fst (ec_print rvalid rfind loc cmd s) in
      texts s' = texts s /\ xrow s' = snd (ref_print (texts s) b e) /\
-     out s' = rev (map OLine (fst (ref_print (texts s) b e))) ++ out s1).
-Proof. exact (fun rvalid rfind => conj (delete_refines rvalid rfind) (conj (insert_refines rvalid rfind) (print_refines rvalid rfind))). Qed.
+     out s' = rev (map OLine (fst (ref_print (texts s) b e))) ++ out s1) /\
+  (forall loc arg s b e s1 buf, ex_region rvalid rfind loc s = (false, b, e, s1) ->
+     reg_special (REG arg) = false -> reg_get s (REG arg) = Some buf ->
+     let s' := fst (ec_put rvalid rfind loc arg s) in (texts s', xrow s') = ref_put (texts s) b e (split_lines buf)) /\
+  (forall readfile curpath loc arg s b e s1 data, ex_region rvalid rfind loc s = (false, b, e, s1) ->
+     negb (plain_arg arg) || (hd0 arg =? 33)%N = false ->
+     readfile (match arg with [] => curpath | _ => arg end) = Some data ->
+     let s' := fst (ec_read rvalid rfind readfile curpath loc arg s) in
+     (texts s', xrow s') = ref_read (texts s) b e (split_lines data) /\ out s' = OMsg M_READ :: out s1) /\
+  (forall loc arg s b e s1, ex_region rvalid rfind loc s = (false, b, e, s1) -> slen s <> 0 -> ex_zero loc b e = false ->
+     let s' := fst (ec_yank rvalid rfind loc arg s) in
+     texts s' = texts s /\ xrow s' = xrow s1 /\ regs s' = reg_put (regs s1) (REG arg) (ref_range (texts s) b e)) /\
+  (forall loc arg s b e s1, ex_region rvalid rfind loc s = (false, b, e, s1) -> slen s <> 0 -> ex_zero loc b e = false ->
+     regs (fst (ec_delete rvalid rfind loc arg s)) = reg_put (regs s1) (REG arg) (ref_range (texts s) b e)) /\
+  (forall loc arg s b e s1 k, ex_region rvalid rfind loc s = (false, b, e, s1) -> ex_zero loc b e = false ->
+     markidx (hd0 arg) = Some k -> (k < length (marks (lb s)))%nat ->
+     let s' := fst (ec_mark rvalid rfind loc arg s) in
+     texts s' = texts s /\ xrow s' = xrow s1 /\ nth k (marks (lb s')) (-1, None) = (e - 1, ghost_at (lns (lb s)) (e - 1))) /\
+  (forall loc s b e s1, ex_region rvalid rfind loc s = (false, b, e, s1) -> ex_zero loc b e = false ->
+     let s' := fst (ec_lnum rvalid rfind loc s) in
+     texts s' = texts s /\ xrow s' = xrow s1 /\ out s' = ONum e :: out s1).
+Proof. exact (fun rvalid rfind =>
+  conj (delete_refines rvalid rfind) (conj (insert_refines rvalid rfind) (conj (print_refines rvalid rfind)
+  (conj (put_refines rvalid rfind) (conj (read_refines rvalid rfind) (conj (yank_refines rvalid rfind)
+  (conj (delete_regs rvalid rfind) (conj (mark_refines rvalid rfind) (lnum_refines rvalid rfind))))))))). Qed.
 Print Assumptions C06_refines_spec_partial.
 
 (* the hypotheses are satisfiable: on a three-line buffer "2,3" resolves to [1,3) *)
